@@ -181,7 +181,7 @@ impl Check for C10 {
         vec!["as C03; a killed server's flock and descriptors are released as the OS does".into()]
     }
     fn components(&self) -> Value {
-        json!({"real": ["copia serve x N"], "simulated": ["file system", "flock", "pipes", "scheduling", "kill before the k-th file-system call", "client actors incl. invalid Puts"]})
+        json!({"real": ["copia serve x N"], "simulated": ["file system", "flock", "pipes", "scheduling", "kill before the k-th file-system call", "injected errno / short write on one server call", "second wave of servers with reused process ids after a kill", "client actors incl. invalid Puts"]})
     }
     fn runs(&self, tier: Tier) -> u64 {
         match tier {
